@@ -178,6 +178,10 @@ def run(ctx):
         "an interface has no static fields",
         "a secure tag on an embedded field of unexported type makes every promoted field secret (since ea18f48; SecureSpec.promoted, "
         "SA_embed_tagged); exercised by the hand-declared EmbTagged / EmbDeep / EmbNil / EmbIgn / TagHolder types on all three surfaces",
+        "clone.Plan with WithRemoveCompletedSequences (alone and with WithKeepState; plans with State everywhere and all four plan-level "
+        "groups, because the option has other problems outside C17: nil State / absent groups dereferenced, nil actions left in sequences): "
+        "WHICH objects it drops is not modelled; every request/response still in the result is paired with the original's by action name and "
+        "must equal scrub(original) (CKept), nil actions count as absent, canaries searched in the clone's JSON (theorem c17_clone_any_kept_subset)",
         "HTML escaping, html/template and the JSON encoders are not modelled: rendered files are byte-searched",
         "embedded NON-struct values of unexported named types (type tokens []string; struct{ tokens }) are not entered by the code nor "
         "serialised by the encoders: treated as ordinary unexported fields",
